@@ -1273,6 +1273,8 @@ class FnLower:
             a, b = self.seq([lambda: self.ex(recv, env, ops), lambda: self.ex(args[0], env, ops)], ops)
             if a.ty in ("u64", "usize") and b.ty in ("u64", "usize", "int"):
                 return ("v", Val(f"({m} {a.atom} {b.atom})", a.ty, a.deps | b.deps))
+            if a.ty == "i64" and b.ty in ("i64", "int"):      # phase 4m: `x.max(0)` on isize / i64 (Int.max / Int.min)
+                return ("v", Val(f"({m} {a.atom} {b.atom})", "i64", a.deps | b.deps))
             self.fail(f"{m} on {a.ty}, {b.ty}")
         if m == "contains" and len(args) == 1 and recv[0] == "range":
             x = strip_paren(args[0])
@@ -1342,7 +1344,7 @@ class FnLower:
         if v.ty == "u32" and dst in ("u64", "usize", "u32"): return ("v", Val(v.atom, dst, v.deps))
         if v.ty in ("u64", "usize", "int") and dst == "u32": return ("v", Val(f"({v.atom} % 4294967296)", "u32", v.deps))     # truncating cast
         if v.ty in ("u64", "usize", "int") and dst == "i64": return ("v", Val(f"(asI64 {v.atom})", "i64", v.deps))
-        if v.ty == "i64" and dst == "u64": return ("v", Val(f"(asU64 {v.atom})", "u64", v.deps))
+        if v.ty == "i64" and dst in ("u64", "usize"): return ("v", Val(f"(asU64 {v.atom})", dst, v.deps))      # (`as usize`, phase 4m: 64-bit target)
         if v.ty in ("u8", "u64", "usize") and dst == "u128": return ("v", Val(v.atom, "u128", v.deps, widened=True))
         if v.ty == "u128" and dst == "u64":
             if inner[0] == "bin" and inner[1] == ">>" and strip_paren(inner[3])[0] == "num" and strip_paren(inner[3])[1] >= 64:
@@ -1880,6 +1882,10 @@ class FnLower2(FnLower):
             if e[0] == "mcall" and e[2] == "copy_from_slice" and len(e[3]) == 1:
                 # `x[a..b].copy_from_slice(&y[c..d])`: both sub-slices are bounds-checked (target first), lengths must agree (else panic)
                 tgt = strip_paren(e[1])
+                if self.opts.get("whole_copy") and tgt[0] == "path" and len(tgt[1]) == 1 and self.lookup(env, tgt[1][0]).kind == "list" and env[tgt[1][0]].mut:
+                    # phase 4m (tools/rs2lean_dec.py): `x.copy_from_slice(src)` of a WHOLE mutable slice variable: panics unless the lengths agree
+                    v = env[tgt[1][0]]; src = self.list_arg(e[3][0], env, ops, "copy_from_slice"); self.monadic_used = True
+                    ops.append(("bind", v.lean, f"copyWhole {v.lean} {src.atom}")); return nxt()
                 if not (tgt[0] == "index" and strip_paren(tgt[2])[0] == "range"): self.fail("copy_from_slice target is not a sub-slice", ln)
                 tb = strip_paren(tgt[1])
                 if not (tb[0] == "path" and len(tb[1]) == 1 and self.lookup(env, tb[1][0]).kind == "list" and env[tb[1][0]].mut): self.fail("copy_from_slice into something that is not a mutable slice variable", ln)
@@ -2562,6 +2568,7 @@ class Skeleton:
         stmts = pro + body[0] + ([("expr", body[1], None)] if body[1] is not None else [])
         tail = None
         if epi and epi[-1][0] == "expr" and epi[-1][2] is None: tail = epi[-1][1]; epi = epi[:-1]
+        elif not epi and body[1] is not None and self.sk.get("keep_tail"): stmts = pro + body[0]; tail = body[1]      # phase 4m: the function's own tail value
         unused = [c for c in list(self.sk.get("handles", [])) + list(self.sk.get("exprs", {})) + list(self.sk.get("effects", {}))
                   if c not in self.used and c not in self.sk.get("optional", [])]      # `optional` (phase 4g): readings of sibling calls that need not occur
         if unused: self.lo.fail(f"skeleton table entries never matched: {unused}")
@@ -3886,6 +3893,9 @@ TABLE_EVALCT += square_tables(EV, CSZ, PLEN, SC_OK, SC_OK_FIRST, _scale_ok)
 
 import rs2lean_ctx as _rs2lean_ctx          # round 7 (worker T): Gen/ContextFns.lean (tables in tools/rs2lean_ctx.py)
 FILES += [("ContextFns.lean", _rs2lean_ctx.SPEC)]
+
+import rs2lean_dec as _rs2lean_dec          # round 7 (worker A, phase 4m): Gen/DecFns.lean (tables in tools/rs2lean_dec.py)
+FILES += [("DecFns.lean", _rs2lean_dec.SPEC)]
 
 if __name__ == "__main__":
     res = gen_all(sys.argv[1])
